@@ -49,7 +49,8 @@ differently, Rise with draws that matter: added; (vii) one change (C15, rank cor
 lines.append("""At the end of session 3 every stored change was re-run against the final checks (`tools/seed_regress.py`, scratch worktrees at
 /repo's HEAD, which includes the two DataLoader fixes): all 120 patches still apply, 127 of the 129 recorded (change, check)
 pairs report VIOLATION and the other two are the pairs recorded below as not detecting (`MISSED by C01` - caught by C13 - and
-`not run`): no regression. The full pinned suite was run on /repo's HEAD as well: the 104 stable tests pass (109 pass in all -
+`not run`): no regression. The 40 round-3 changes were also re-run with `VERIF_SEED=1`: all 42 recorded pairs report VIOLATION (the
+families added in round 3 are produced in fixed numbers per run, not left to the seed). The full pinned suite was run on /repo's HEAD as well: the 104 stable tests pass (109 pass in all -
 the five `test_torch.py` tests that exercise DataLoaders pass since D17 / D18).
 """)
 lines.append(subprocess.check_output(["python3", "/verif/tools/seed_table.py"], text=True))
